@@ -186,24 +186,31 @@ static void _meta_fini(void) {
 	}
 }
 static void _meta_init(void) {
+	static int endreg = 0;
+	struct named_traits_chunk *chunk;
 	MPT_STRUCT(named_traits) *base;
 	
-	if (!(meta_types = malloc(sizeof(*meta_types)))) {
+	/* table is published complete (with base metatype entry) or not at all */
+	if (!(chunk = malloc(sizeof(*chunk)))) {
 		return;
 	}
-	meta_types->used = 0;
-	atexit(_meta_fini);
-	
 	if (!(base = malloc(sizeof(*base) + sizeof(pointer_traits)))) {
+		free(chunk);
 		return;
 	}
 	*((const void **) &base->traits) = memcpy(base + 1, &pointer_traits, sizeof(pointer_traits));
 	*((const char **) &base->name) = "metatype";
 	*((MPT_TYPE(type) *) &base->type) = MPT_ENUM(_TypeMetaPtrBase);
 	
-	meta_types->traits[0] = base;
-	meta_types->next = 0;
-	meta_types->used = 1;
+	chunk->traits[0] = base;
+	chunk->next = 0;
+	chunk->used = 1;
+	meta_types = chunk;
+	
+	if (!endreg) {
+		endreg = 1;
+		atexit(_meta_fini);
+	}
 }
 /* interface resources */
 static void _interfaces_fini(void) {
@@ -603,7 +610,10 @@ extern const MPT_STRUCT(named_traits) *mpt_type_metatype_add(const char *name)
 	
 	if (!(ext = meta_types)) {
 		_meta_init();
-		ext = meta_types;
+		/* no table: next call retries setup */
+		if (!(ext = meta_types)) {
+			return 0;
+		}
 	}
 	
 	if (name) {
